@@ -24,6 +24,27 @@ def generic (g : DrvRun.GOracle) (j : Json) : Json :=
   | "bind" => DrvBind.bind j
   | "lex" => DrvLex.lex j
   | "lit" => DrvLit.lits g j
+  | "hist" =>
+    -- a history of operations run in one process: every operation is judged on its own against
+    -- the (history-free) model
+    if !J.isNull (J.get j "death") then
+      J.obj [("id", J.get j "id"), ("agree", false), ("spec", false), ("note", s!"history process ended: {J.str (J.get j "death")}")]
+    else Id.run do
+      let mut agree := true
+      let mut spec := true
+      let mut note := ""
+      let mut need : Option Json := none
+      let mut n : Nat := 0
+      for op in J.arr (J.get j "ops") do
+        let r := DrvRun.run g op
+        n := n + 1
+        if !J.isNull (J.get r "need") then need := some (J.get r "need")
+        if !J.bool (J.get r "agree") && agree then
+          agree := false; note := s!"operation {n}: {J.str (J.get r "note")}"
+        if !J.bool (J.get r "spec") then spec := false
+      match need with
+      | some q => return J.obj [("id", J.get j "id"), ("agree", true), ("spec", spec), ("need", q), ("note", "")]
+      | none => return J.obj [("id", J.get j "id"), ("agree", agree), ("spec", spec && agree), ("n", n), ("note", note)]
   | "lncol" => DrvC17.lncol j
   | k => J.obj [("id", J.get j "id"), ("agree", false), ("spec", true), ("note", s!"unknown kind {k}")]
 
